@@ -402,3 +402,45 @@ Example C16_jwt_opts_example :
     = Some [leeway; DKey true (S_ """verify_exp""") 0 (EName (S_ "True")); DKey false (S_ "verify_k") 0 (EName (S_ "False"))] /\
   replace_opts_dict [DSpread 1 (EName (S_ "BASE")); vexp] = None.
 Proof. split; vm_compute; reflexivity. Qed.
+
+(** * replace-flask-send-file: utils.positional_to_keyword (table-indexed on its shape, Tables.p2k_shape) *)
+(** Whatever the variant, a result only differs from the input in keywords: stars, values, layout tags and the order of
+    ALL arguments are kept, and keyword arguments are returned as they were.  As written (P2kRaisesOnStar) the function
+    raises on a starred argument (the file is reported as failed and left untouched — allowed); a variant that handles
+    stars (P2kCarriesOver) must be total. *)
+Definition C16_p2k_statement (v : p2k_variant) : Prop :=
+  (forall args m seen r, positional_to_keyword v seen args m = Some r ->
+     map strip_kw r = map strip_kw args /\
+     (forall i a, nth_error args i = Some a -> kw a <> None -> nth_error r i = Some a)) /\
+  match v with
+  | P2kCarriesOver => forall args m, exists r, positional_to_keyword v false args m = Some r
+  | P2kRaisesOnStar => exists args m, positional_to_keyword v false args m = None
+  end.
+Lemma C16_p2k_all v : C16_p2k_statement v.
+Proof.
+  split.
+  - intros args m seen r H. split; [exact (p2k_only_keywords v args m seen r H)|exact (p2k_keeps_keyword_args v args m seen r H)].
+  - destruct v.
+    + exists [mkArg None 2 0 0 (EName (S_ "kw"))], [Some (S_ "mimetype")]. reflexivity.
+    + intros args m. apply p2k_carries_total.
+Qed.
+Theorem C16_p2k_frame : C16_p2k_statement p2k_shape.
+Proof. exact (C16_p2k_all p2k_shape). Qed.
+Print Assumptions C16_p2k_frame.
+(** the documented reading: once a starred argument is met, it and everything after it is carried over untouched *)
+Theorem C16_p2k_carries_after_star : forall args m, positional_to_keyword P2kCarriesOver true args m = Some args.
+Proof. exact p2k_carries_after_star. Qed.
+Print Assumptions C16_p2k_carries_after_star.
+(** as written and without starred arguments, a result is the documented one *)
+Theorem C16_p2k_as_written_agrees : forall args m r, positional_to_keyword P2kRaisesOnStar false args m = Some r ->
+  forallb (fun a => N.eqb (star a) 0) args = true -> positional_to_keyword P2kCarriesOver false args m = Some r.
+Proof. intros args m r H Hs. exact (p2k_raises_agrees args m false r H eq_refl Hs). Qed.
+Print Assumptions C16_p2k_as_written_agrees.
+Example C16_p2k_example :
+  let m := [Some (S_ "mimetype"); Some (S_ "as_attachment")] in
+  let t := mkArg None 0 0 1 (EConst (S_ "'text/plain'")) in
+  let k := mkArg None 2 0 0 (EName (S_ "kw")) in
+  positional_to_keyword P2kCarriesOver false [t; k] m = Some [set_kw t (S_ "mimetype"); k] /\
+  positional_to_keyword P2kRaisesOnStar false [t; k] m = None /\
+  positional_to_keyword P2kRaisesOnStar false [t] m = Some [set_kw t (S_ "mimetype")].
+Proof. repeat split. Qed.
